@@ -11,14 +11,15 @@ ASSUMPTIONS = [
 OBLIGATIONS = [
     chx("server_order", "C32_h", "h_server_order",
         bounds={"quick": {"uniform_verifier": True}, "thorough": {"uniform_verifier": False}},
-        cases={"quick": [{"n": 3, "for_upload": False, "_label": "n3-read"}, {"n": 3, "for_upload": True, "_label": "n3-upload"}],
-               "thorough": [{"n": 4, "for_upload": False, "_label": "n4-read"},
+        cases={"quick": [{"n": 3, "for_upload": False, "_label": "n3-read"}, {"n": 3, "for_upload": True, "_label": "n3-upload"},
+                         {"n": 3, "for_upload": False, "tie": True, "_label": "n3-read-tie"}],
+               "thorough": [{"n": 4, "for_upload": False, "_label": "n4-read"}, {"n": 3, "tie": True, "_label": "n3-tie"},
                             {"n": 4, "for_upload": True, "uniform_verifier": True, "_label": "n4-upload-uniform"},
                             {"n": 3, "for_upload": True, "_label": "n3-upload"}, {"n": 3, "for_upload": False, "_label": "n3-read"},
                             {"n": 2, "_label": "n2"}]},
         timeout={"quick": 120, "thorough": 1500},
         desc="StorageFarmBroker.get_servers_for_psi: result == exactly the connected (for upload: and permitted) servers once each, preferred "
-             "first, then ascending hash of (storage index, seed); identical for two set-iteration orders; verifier not consulted unless for_upload",
+             "first, then ascending hash of (storage index, seed); identical for two set-iteration orders; verifier not consulted unless for_upload; tie case: two servers announcing the same permutation seed are both listed (relative order unspecified)",
         outside="SHA-1 itself; Tub/HTTP connection management that sets the connected flag"),
     chx("preferred_from_config", "C32_h", "h_preferred_from_config", timeout={"quick": 120, "thorough": 600},
         desc="[client]peers.preferred in tahoe.cfg -> StorageClientConfig.from_node_config -> StorageFarmBroker(...) with servers built by the real "
